@@ -466,6 +466,19 @@ def _has_det_everywhere(e):
 def search(run, deep):
     n = run.scale(60, 1500) if not deep else 1500
     for i in range(n):
+        seq = [run.rng.choice(HISTORY_STEPS) for _ in range(run.rng.randint(2, 7))]
+        state = run.rng.getstate()
+        why = history_case(run, seq)
+        run.case(("history", tuple(seq)), nontrivial=True, sample={"history": seq})
+        run.count("history_steps", len(seq))
+        if why:
+            run.fail_input("history", {"steps": seq, "rng_state": repr(state)}, observed=why,
+                           what="query/mutate/query history %s: %s" % (seq, why))
+        inp, why = routing_case(run)
+        run.case(("routing", str(inp)), nontrivial=True)
+        if why:
+            run.fail_input("routing", inp, observed=why, what="trigger keyword routing: " + why)
+    for i in range(n):
         st = {"id": 0, "tag": 0, "p_above": run.rng.choice([0.0, 0.0, 0.1])}
         e = gen_expr(run, st, run.rng.randint(1, 3))
         why = oracle_case(run, e)
@@ -523,6 +536,110 @@ def _expr_all_default(e):
     return all(_expr_all_default(x) for x in e[1])
 
 
+def walk_ids(o):
+    """independent flatten: walk .subsets / lists recursively"""
+    if isinstance(o, list):
+        return [i for x in o for i in walk_ids(x)]
+    if is_det(o):
+        return [i for x in o.subsets for i in walk_ids(x)]
+    return [o.aid]
+
+
+def consistent(obj):
+    """len / iteration / indexing agree with each other and with the live structure"""
+    exp = walk_ids(obj)
+    it = [a.aid for a in obj]
+    if it != exp:
+        return "iteration %s != live structure %s" % (it, exp)
+    if len(obj) != len(exp):
+        return "len %d != %d antennas in the structure" % (len(obj), len(exp))
+    try:
+        if [obj[i].aid for i in range(len(exp))] != exp or (exp and obj[-1].aid != exp[-1]):
+            return "indexing disagrees with iteration"
+    except IndexError:
+        return "indexing raises inside range(len)"
+    return None
+
+
+def history_case(run, seq):
+    """query - mutate a nested part in place - query again (stale-cache histories)"""
+    A = ant_class()
+    st = {"id": 0, "tag": 0, "p_above": 0.0}
+    mk = lambda: build(("D", _next(st, "tag"), True, [], [gen_ant(run, st) for _ in range(run.rng.randint(1, 3))]))
+    s1, s2, s3 = mk(), mk(), mk()
+    lst = [build(gen_ant(run, st)) for _ in range(2)]
+    inner = s2 + s3
+    outer = s1 + inner
+    withlist = s1 + lst
+    nested = mk() + (mk() + inner)
+    objs = {"outer": outer, "inner": inner, "withlist": withlist, "nested": nested}
+    for step in seq:
+        if step == "query":
+            for o in objs.values():
+                len(o); list(o); (len(o) and o[0])
+        elif step == "iadd_inner_ant":
+            inner += build(gen_ant(run, st))
+        elif step == "iadd_inner_det":
+            inner += mk()
+        elif step == "append_list":
+            lst.append(build(gen_ant(run, st)))
+        elif step == "rebuild_string":
+            n0 = st["id"]
+            s2.build_antennas(lambda position, _n=[n0]: _mk_ant(A, _n, position))
+            st["id"] += len(s2.antenna_positions)
+        elif step == "iadd_outer":
+            outer += mk()
+        for name, o in objs.items():
+            why = consistent(o)
+            if why:
+                return "%s after %s: %s" % (name, step, why)
+    return None
+
+
+def _next(st, k):
+    st[k] += 1
+    return st[k]
+
+
+def _mk_ant(A, counter, position):
+    counter[0] += 1
+    a = A(counter[0], False, False, False)
+    a.position = position
+    return a
+
+
+HISTORY_STEPS = ["query", "iadd_inner_ant", "iadd_inner_det", "append_list", "rebuild_string", "iadd_outer"]
+
+
+def routing_case(run):
+    """flat combination of custom detectors with differing signatures: each receives exactly the
+    keywords it accepts (independent recomputation, no Lean model involved)"""
+    st = {"id": 0, "tag": 0, "p_above": 0.0}
+    k = run.rng.randint(2, 4)
+    sigs = []
+    while len(set(map(lambda x: (tuple(x[0]), x[1]), sigs))) < 2:
+        sigs = [gen_sig(run) for _ in range(k)]
+    subs = []
+    for acc, star in sigs:
+        st["tag"] += 1
+        subs.append(("D", st["tag"], star, acc, [("A", _next(st, "id"), False, False, False)]))
+    obj = build(("C", subs))
+    kws = run.rng.sample(KW_POOL, run.rng.randint(0, 3))
+    mc = run.rng.random() < 0.5
+    del CALL_LOG[:]
+    try:
+        obj.triggered(require_mc_truth=mc, **{kk: 1 for kk in kws})
+    except TypeError as e:
+        return {"sigs": sigs, "kws": kws}, "TypeError %s" % e
+    got = dict(CALL_LOG)
+    for (tag, (acc, star)) in zip(range(1, k + 1), sigs):
+        exp = sorted(kk for kk in kws + ["require_mc_truth"] if star or kk in acc)
+        if got.get(tag) != exp:
+            return {"sigs": sigs, "kws": kws}, "detector %d (accepts %s%s) received %s, expected %s" % (
+                tag, acc, " + **kwargs" if star else "", got.get(tag), exp)
+    return {"sigs": sigs, "kws": kws}, None
+
+
 def _all_default(e):
     def t_ok(t):
         if t[0] in "AL":
@@ -540,8 +657,14 @@ def replay(run, data):
         why = oracle_case(run, e)
         if why:
             run.fail_input("expr", inp, observed=why, what=why)
+    elif data["kind"] == "history":
+        why = None
+        for _ in range(20):   # the antennas drawn differ, the step sequence is what matters
+            why = why or history_case(run, inp["steps"])
+        if why:
+            run.fail_input("history", inp, observed=why, what="query/mutate/query history: " + why)
     else:
-        # assoc / trigger / clear replays re-run the search with the recorded seed
+        # assoc / trigger / clear / routing replays re-run the search with the recorded seed
         search(run, True)
 
 
